@@ -148,8 +148,12 @@ def _extract_decode(prog, f, resolve):
         if optional:
             if x.op == "agg" and x.args[2] == "None":
                 # the deciding fact: Eq(p, INV)
-                dec = [(t, k, v) for t, (k, v) in facts.items() if t.op == "bin" and t.args[0] == "Eq"]
-                if len(dec) != 1 or not ((dec[0][1] == "eq" and dec[0][2] == 1) or (dec[0][1] == "ne" and 0 in dec[0][2])):
+                dec = [(t, k, v) for t, (k, v) in facts.items() if t.op == "bin" and t.args[0] in ("Eq", "Ne")]
+                def _holds_eq(t_, k_, v_):
+                    # the path fact says p == INV: Eq(..) is true, or Ne(..) is false (`(p != INV).then_some(v)`)
+                    want = 1 if t_.args[0] == "Eq" else 0
+                    return (k_ == "eq" and v_ == want) or (k_ == "ne" and (1 - want) in v_)
+                if len(dec) != 1 or not _holds_eq(*dec[0]):
                     return None, "None is not decided by a single equality test"
                 e = dec[0][0]
                 if not is_const(e.args[2]):
